@@ -56,9 +56,11 @@ func runC05(e *emitter, idx int, p *Prob) {
 		s2 := solver.New(pb2)
 		ch := make(chan []bool)
 		done := make(chan int)
+		var enumPanic interface{}
 		go func() {
 			defer func() {
 				if e := recover(); e != nil {
+					enumPanic = panicInfo(e)
 					done <- -1000000
 				}
 			}()
@@ -70,7 +72,7 @@ func runC05(e *emitter, idx int, p *Prob) {
 		closed = 1
 		enumRet = <-done
 		if enumRet == -1000000 {
-			panic("panic inside Enumerate goroutine")
+			panic(enumPanic)
 		}
 	})
 	ms := make([]Sx, len(models))
